@@ -878,6 +878,17 @@ def gen_c06(tier, seed):
             regs[12] = STK
             ops = setup_ops(regs, [(tgt, sub)], main, site) + ['k:3e8', 'st', 'gr', 'rw:%x' % STK, 'st', 'st', 'gr']
             g.add(ops, 'bsb-displacement')
+    # subroutines that leave through a conditional return (every condition x every flag combination): taken, it is an RSB;
+    # not taken, the next instruction (an RSB) returns; either way control is back behind the call with %sp as before
+    for cr in (0x40, 0x44, 0x48, 0x4c, 0x50, 0x54, 0x58, 0x5c, 0x60, 0x64, 0x68, 0x6c, 0x74, 0x78, 0x7c):
+        for fl in allflags():
+            site = 0x710000
+            tgt = 0x712000 + 4 * r.randrange(16)
+            call = r.choice([ins(OP['JSB'], absa(tgt)), [0x36, (tgt - site) & 0xff, ((tgt - site) >> 8) & 0xff]])
+            regs = rnd_regs(r, psw_of(fl))
+            regs[12] = STK
+            ops = setup_ops(regs, [(tgt, [cr, 0x78, 0x70, 0x70])], call + [0x70] * 6, site) + ['k:3e8', 'st', 'gr', 'rw:%x' % STK, 'st', 'gr', 'st', 'gr']
+            g.add(ops, 'conditional-return')
     # CALL / JSB whose operands are computed from %sp, %pc or through words on the stack (the linkage words are written and
     # %sp moves while the instruction runs), and CALL / JSB whose target cannot be resolved
     import asm as _asm
